@@ -857,8 +857,7 @@ fn census(ctx: &Ctx) {
     ctx.add_report(rep);
 }
 
-/// binary-FHE key types: wrappers over the core types above (vectors of GGSW / GGLWE keys);
-/// exercised by the bin-fhe binary's serialisation sub-check
+/// binary-FHE key types: exercised by the sub-check `binfhe_keys` (c18b.rs)
 pub const BINFHE_DEFERRED: &[&str] = &["BlindRotationKey", "BlindRotationKeyCompressed", "CircuitBootstrappingKey", "BDDKey"];
 
 pub fn replay(ctx: &Ctx, sub: &str, case: &serde_json::Value) -> i32 {
@@ -869,7 +868,7 @@ pub fn replay(ctx: &Ctx, sub: &str, case: &serde_json::Value) -> i32 {
     }
 }
 
-pub const RULE: &str = "cases = (serialisable type (26 hal/core layouts incl. the eleven compressed forms), parameter set (N 2..64, radix 2..24, limbs, ranks, dnum, dsize), receiver of the same / larger / smaller shape, fault in {none, truncation at a generated or every (exhaustive for small objects) byte, header field at a 4-byte-aligned offset in the first 160 bytes replaced from the boundary dictionary {0,1,2,3,2^31,2^32,2^58,2^60,2^61,2^61+1,2^63,2^64-2,2^64-1,8} or value+-1, x2, /2, two fields at once, single bit flip}). Checks: no panic; round trip equality (object and bytes); receiver invariant after Ok and after Err (size <= max_size, n*cols*size*8 and n*cols*max_size*8 within the buffer, through public fields); dimensions unchanged on Err; the receiver is then used (re-serialised, every coefficient read). non-trivial = stream damaged or receiver shape differs.";
+pub const RULE: &str = "cases = (serialisable type (26 hal/core layouts incl. the eleven compressed forms; the four binary-FHE key types in sub-check binfhe_keys: valid streams assembled from public components, faults incl. damaged counts / Galois elements / tags), parameter set (N 2..64, radix 2..24, limbs, ranks, dnum, dsize), receiver of the same / larger / smaller shape, fault in {none, truncation at a generated or every (exhaustive for small objects) byte, header field at a 4-byte-aligned offset in the first 160 bytes replaced from the boundary dictionary {0,1,2,3,2^31,2^32,2^58,2^60,2^61,2^61+1,2^63,2^64-2,2^64-1,8} or value+-1, x2, /2, two fields at once, single bit flip}). Checks: no panic; round trip equality (object and bytes); receiver invariant after Ok and after Err (size <= max_size, n*cols*size*8 and n*cols*max_size*8 within the buffer, through public fields); dimensions unchanged on Err; the receiver is then used (re-serialised, every coefficient read). non-trivial = stream damaged or receiver shape differs.";
 
 pub const ASSUMPTIONS: &[&str] = &[
     "checked profile: arithmetic overflow inside read_from surfaces as a panic, which the property forbids",
